@@ -117,13 +117,13 @@ mod b64 {
         let mut inputs: Vec<Vec<u8>> = vec![vec![]];
         for a in 0..=255u8 { inputs.push(vec![a]); }
         for a in 0..=255u8 { for b in 0..=255u8 { inputs.push(vec![a, b]); } }
-        for _ in 0..200000 { inputs.push(vec![rng.next() as u8, rng.next() as u8, rng.next() as u8]); }
+        for _ in 0..60000 { inputs.push(vec![rng.next() as u8, rng.next() as u8, rng.next() as u8]); }
         for _ in 0..2000 { let n = rng.below(300) as usize; inputs.push((0..n).map(|_| rng.next() as u8).collect()); }
-        for base in [1024usize, 4096, 8192, 16384, 65536] { for d in 0..6 { let n = base - 2 + d; inputs.push((0..n).map(|_| rng.next() as u8).collect()); } }
+        for base in [1024usize, 4096, 8192, 16384] { for d in 0..4 { let n = base - 2 + d; inputs.push((0..n).map(|_| rng.next() as u8).collect()); } }
         let mut h = Hits::new();
         for x in &inputs {
             if let Some(o) = check_encode(x) { h.hit("base64", "encode", "Base64::encode", &hex(x), &o); }
-            if let Some(o) = check_roundtrip(x) { h.hit("base64", "roundtrip", "Base64::decode", &hex(x), &o); }
+            if x.len() <= 9000 { if let Some(o) = check_roundtrip(x) { h.hit("base64", "roundtrip", "Base64::decode", &hex(x), &o); } }
             if h.n >= 6 { break; }
         }
         // foreign characters: every position of valid texts, padding-only groups, non-ASCII
